@@ -40,7 +40,7 @@ FLIP_FIELDS = {"quote": ["message", "custom_data", "signature"],
                "attestation": ["message", "key", "auth_data", "signature"]}
 REQUIRED_LABELS = {t: ["valid", "invalid:quote", "invalid:attestation",
                        "invalid:quoting_enclave", "invalid:platform_ca", "depth:1", "depth:2",
-                       "depth:3"] + ["corr:" + k for k in sorted(set(CORR))]
+                       "depth:3", "revalidated:same", "revalidated:other"] + ["corr:" + k for k in sorted(set(CORR))]
                    for t in ("quick", "thorough")}
 
 
@@ -63,7 +63,9 @@ def cases(draw, tier):
                      "bit": draw(st.integers(0, 7)), "key": draw(st.integers(1, 2 ** 255)),
                      "win": draw(st.sampled_from(["expired", "not-yet"])),
                      "bwin": draw(st.sampled_from(["ends-now", "starts-now"]))})
-    return {"spec": spec, "corruptions": corr}
+    return {"spec": spec, "corruptions": corr,
+            "again": draw(st.lists(st.sampled_from(["same", "other", "same"]), max_size=3)),
+            "other_root": draw(st.integers(1, 2 ** 255))}
 
 
 def flip_bytes(b, pos, bit):
@@ -299,30 +301,44 @@ def run_case(c):
     with open(fpath, "w") as f:
         json.dump(doc, f)
     cert = HSMCertificate.from_jsonfile(fpath)
-    root = HSMCertificateV2ElementX509(root_map)
-    got = cert.validate_and_get_values(root)
-    if set(got) != {"quote"}:
-        raise Violation("targets", repr(sorted(got)))
-    g = got["quote"]
     labels.append("depth:%d" % len(v.chain))
-    if first is None:
-        if g[0] is not True:
-            raise Violation("valid-chain-rejected", "code says %r; corruptions %r" % (
-                g[:2], [k["kind"] for k in c["corruptions"]]))
-        if len(g) != 3 or g[2] is not None:
-            raise Violation("value-shape", repr(g)[:200])
-        check_valid_values(g[1], v, doc)
-        labels.append("valid")
-    else:
-        if g[0] is not False:
-            raise Violation("invalid-chain-accepted:" + first, "first broken element %s "
-                            "(corruptions %r) but code says valid" % (
-                                first, [(k["kind"], labels) for k in c["corruptions"]][:3]))
-        if g[1] != first:
-            raise Violation("wrong-failing-element", "code names %r, first broken from the "
-                            "root is %r (path %r, broken %r)" % (g[1], first, path,
-                                                                 sorted(broken)))
-        labels.append("invalid:" + first)
+    other = certs.p256_key(c.get("other_root", 1), role="unrelated-root")
+    other_map = {"name": "sgx_root", "signed_by": "sgx_root",
+                 "message": certs.der_to_b64(certs.cert_der(certs.make_cert(
+                     "root", other.public_key(), "root", other, "long")))}
+    rounds = [("first", root_map)] + [(a, root_map if a == "same" else other_map)
+                                      for a in c.get("again", [])]
+    for rnd, (what, rmap) in enumerate(rounds):
+        root = HSMCertificateV2ElementX509(rmap)
+        got = cert.validate_and_get_values(root)
+        where = "validation #%d of the same object (%s root)" % (rnd + 1, what)
+        if rnd > 0:
+            labels.append("revalidated:" + what)
+        if set(got) != {"quote"}:
+            raise Violation("targets", repr(sorted(got)))
+        g = got["quote"]
+        exp_first = first if what != "other" else path[0]
+        if exp_first is None:
+            if g[0] is not True:
+                raise Violation("valid-chain-rejected", "%s: code says %r; corruptions %r" % (
+                    where, g[:2], [k["kind"] for k in c["corruptions"]]))
+            if len(g) != 3 or g[2] is not None:
+                raise Violation("value-shape", repr(g)[:200])
+            check_valid_values(g[1], v, doc)
+            if rnd == 0:
+                labels.append("valid")
+        else:
+            if g[0] is not False:
+                raise Violation("invalid-chain-accepted:" + exp_first, "%s: first broken "
+                                "element %s (corruptions %r) but code says valid" % (
+                                    where, exp_first,
+                                    [k["kind"] for k in c["corruptions"]][:3]))
+            if g[1] != exp_first:
+                raise Violation("wrong-failing-element", "%s: code names %r, first broken from "
+                                "the root is %r (path %r, broken %r)" % (
+                                    where, g[1], exp_first, path, sorted(broken)))
+            if rnd == 0:
+                labels.append("invalid:" + exp_first)
     nt = bool(c["corruptions"])
     return Out(labels, nt)
 
